@@ -425,12 +425,42 @@ func runIndex(e *env) {
 				out.violate("C15.R5", "sweep-failed", "fault-free InvalidateByLabels(%v) after the clients finished returned %v", sc.Sweep, rec.err)
 			}
 
+			// A key written back by a client after it was deleted is only obliged to be gone if a label was
+			// attached to it after the last Delete call it received before the sweep: that association cannot
+			// have been consumed by an earlier call, because consuming it means calling Delete on every cache
+			// of the name.
 			rewritten := map[string]bool{}
+			lastDel := map[string]uint64{}
 
 			for _, w := range r.recs {
 				if w.op.Kind == "write" {
 					rewritten[fmt.Sprintf("%d/%s", w.op.Cache, sc.Keys[w.op.Key])] = true
 				}
+			}
+
+			for _, d := range r.dels[:rec.delFrom] {
+				id := fmt.Sprintf("%d/%s", d.cache, d.key)
+				if d.seq > lastDel[id] {
+					lastDel[id] = d.seq
+				}
+			}
+
+			labelledAfter := func(name, k string, after uint64) bool {
+				for _, al := range r.recs {
+					if al.op.Kind != "addLabels" || al.op.Name != name || sc.Keys[al.op.Key] != k || al.inv <= after {
+						continue
+					}
+
+					for _, l := range al.op.Labels {
+						for _, sl := range sc.Sweep {
+							if l == sl {
+								return true
+							}
+						}
+					}
+				}
+
+				return false
 			}
 
 			for name, keys := range r.labelled(sc.Sweep) {
@@ -440,12 +470,17 @@ func runIndex(e *env) {
 					}
 
 					for k := range keys {
-						if rewritten[fmt.Sprintf("%d/%s", i, k)] {
+						id := fmt.Sprintf("%d/%s", i, k)
+						if rewritten[id] && !labelledAfter(name, k, lastDel[id]) {
 							continue
 						}
 
+						if rewritten[id] {
+							out.probe("sweep_judged_rewritten_and_relabelled_key")
+						}
+
 						if r.present(i, k) {
-							out.violate("C15.R5", "key-fell-out-of-index-concurrent", "key %q was labelled under %q (AddLabels concurrent with a failing InvalidateByLabels); a later fault-free InvalidateByLabels(%v) returned nil but the key is still in cache #%d: the association was lost", k, name, sc.Sweep, i)
+							out.violate("C15.R5", "key-fell-out-of-index-concurrent", "key %q was labelled under %q after the last Delete call it received (concurrently with other InvalidateByLabels calls); a later fault-free InvalidateByLabels(%v) returned nil but the key is still in cache #%d: the association was lost", k, name, sc.Sweep, i)
 						}
 					}
 				}
